@@ -6,6 +6,10 @@ ALL = ["C%02d" % i for i in range(1, 21)]
 
 # id -> (technique, level text, level note, design ref)
 CLAIMED = {
+ "C17": ("property-based testing (rapid): generated value streams x chunk plans x injected reader/writer faults, checked against per-value encoding/json results and an explicit terminal-condition oracle",
+         "Generated streams are fed to the stream decoder through a reader that splits them according to a drawn chunk plan (single bytes, empty reads, data together with EOF, sizes around the buffer growth points) and optionally fails with a sentinel; values, progress (InputOffset), the number of successes and the terminal condition are checked. The stream encoder is driven with short and failing writers. Exploration.",
+         "Trusted: encoding/json for each value; the harness's chunkReader/faultyWriter follow the io.Reader/io.Writer contracts.",
+         "DESIGN.md §7 C17"),
  "C15": ("model-based property testing (rapid): operation sequences drawn as data, run against ast.Node and a plain ordered-tree model, observations and final MarshalJSON compared",
          "Generated histories of reads and mutations are applied to a real node (created lazily in six different ways) and to an ordered-map/array model; each return value, each read and the periodic full serialisation must agree with the model, so the order of lazy parsing or the loaded state must never show. Exploration over generated histories.",
          "Trusted: the model in props/c15.go (doc-comment semantics), harness/ref tokeniser. Two known findings (Len on lazy nodes; copies of lazy nodes share the parser) are recorded; the first is skipped in place, the second ends the sequence.",
